@@ -13,32 +13,48 @@ EXTERNAL_PROP_SITES = {
 
 def rule_book(c, prog, reader_rule=True):
     R = "C12.book"
-    c.rule(R, "unique_ids and instances change only inside inner_insert / inner_remove (and construction), so every entry to / exit from a DOM passes the bookkeeping; outside rbx_dom_weak nobody replaces or structurally edits the property map of an instance that is already in a DOM")
+    c.rule(R, "per public function of rbx_dom_weak::dom (private helpers inlined): every insertion into / removal from the instance map is followed on every path by the UniqueId bookkeeping test (`properties.get(\"UniqueId\")`, whose outcomes C12.coll checks), and unique_ids changes only in functions that also change the instance map; outside rbx_dom_weak nobody replaces or structurally edits the property map of an instance that is already in a DOM")
     muts = U.all_mutations(prog, [U.F_UIDS, U.F_INSTANCES, U.F_PROPS])
-    allowed = {
-        (U.F_UIDS, DOM + "WeakDom::inner_insert", "structural:insert"), (U.F_UIDS, DOM + "WeakDom::inner_remove", "structural:remove"),
-        (U.F_INSTANCES, DOM + "WeakDom::inner_insert", "structural:insert"), (U.F_INSTANCES, DOM + "WeakDom::inner_remove", "structural:remove"),
-    }
-    seen = set()
+    api = U.api_fns(prog)
+    n_ins = n_rem = 0
+    for path, fn in sorted(api.items()):
+        name = U.short_api(path)
+        cfg = D.CFG(fn)
+        ins = U.mutation_blocks(fn, U.F_INSTANCES, r"::insert$")
+        rem = U.mutation_blocks(fn, U.F_INSTANCES, r"::remove$")
+        uid_ins = U.mutation_blocks(fn, U.F_UIDS, r"::insert$")
+        uid_rem = U.mutation_blocks(fn, U.F_UIDS, r"::remove$")
+        tests = set()
+        for i, cal, t in U.calls_in(fn, r"HashMap::<K, V, S(, A)?>::get$"):
+            r = U.local_root(fn, t["args"][0], depth=16) if t.get("args") else None
+            if r and U.F_PROPS in r[1]:
+                tests.add(i)
+        for kind, blocks, uid_blocks in (("insert", ins, uid_ins), ("remove", rem, uid_rem)):
+            for k, b in enumerate(sorted(blocks)):
+                if kind == "insert":
+                    n_ins += 1
+                else:
+                    n_rem += 1
+                inst = f"{kind}:{name}#{k + 1}"
+                starts = cfg.blocks[b]["term"].get("targets", [])
+                if tests and all(cfg.must_pass(s0, tests, cfg.returns) for s0 in starts):
+                    c.ok(R, inst)
+                else:
+                    c.violation(R, f"{U.F_INSTANCES}|{path}|structural:{kind}", f"{name}: an instance {'enters' if kind == 'insert' else 'leaves'} the instance map on a path that does not pass the UniqueId bookkeeping (`properties.get(\"UniqueId\")` test): its id is never {'recorded / checked for collision' if kind == 'insert' else 'freed'}", cfg.blocks[b]["term"].get("sp", ""), instance=inst)
+            if uid_blocks and not blocks:
+                c.violation(R, f"{U.F_UIDS}|{path}|structural:{kind}", f"{name} performs {kind} on unique_ids without a matching {kind} on the instance map: the id set no longer mirrors the instances", fn.sp, instance=f"uids-{kind}:{name}")
+            elif uid_blocks:
+                c.ok(R, f"uids-{kind}:{name}")
+    c.floor(R, n_ins, 3, "instance-map insertions in public functions (insert x2, transfer x2)")
+    c.floor(R, n_rem, 3, "instance-map removals in public functions (destroy, transfer x2)")
+    # mutation sites outside the owning module
     for field in (U.F_UIDS, U.F_INSTANCES):
         for fn, cls, m in muts[field]:
             if cls.startswith(("element:", "capacity:")):
                 continue
-            seen.add((field, fn, cls))
-            inst = f"{field}|{fn}|{cls}"
-            if (field, fn, cls) in allowed:
-                c.ok(R, inst)
-            else:
-                c.violation(R, inst, f"{fn} performs {cls} on {field} outside inner_insert/inner_remove: UniqueId bookkeeping is bypassed", m["sp"], instance=inst)
-    for a in allowed - seen:
-        c.violation(R, "anchor|" + "|".join(a), f"bookkeeping site disappeared: {a[1]} no longer performs {a[2]} on {a[0]} (ids are never recorded / never freed)", "")
-    # inner_insert/inner_remove callers
-    for path, fn in sorted(prog.fns.items()):
-        if fn.crate not in core.LIB_CRATES or not fn.mir:
-            continue
-        for i, cal, t in U.calls_in(fn, r"WeakDom::inner_(insert|remove)$"):
-            if not path.startswith(DOM):
-                c.violation(R, f"caller|{path}", f"{path} calls {cal} from outside rbx_dom_weak::dom", t.get("sp", ""))
+            if not (fn.startswith(DOM) or fn.startswith("<" + DOM)):
+                inst = f"{field}|{fn}|{cls}"
+                c.violation(R, inst, f"{fn} performs {cls} on {field} outside rbx_dom_weak::dom: UniqueId bookkeeping is bypassed", m["sp"], instance=inst)
     if not reader_rule:
         return
     # reader rule
@@ -72,83 +88,162 @@ def rule_book(c, prog, reader_rule=True):
         c.violation(R, "from_raw|dup", "from_raw no longer panics when `unique_ids.insert` reports a duplicate", fr.sp, instance="from_raw:duplicate-check")
 
 
+def pat_binding_lids(p):
+    out = []
+    stack = [p]
+    while stack:
+        x = stack.pop()
+        if isinstance(x, dict):
+            if x.get("k") == "Binding" and "lid" in x:
+                out.append(x["lid"])
+            stack.extend(v for v in x.values() if isinstance(v, (dict, list)))
+        elif isinstance(x, list):
+            stack.extend(x)
+    return out
+
+
+def is_has_test(pat, init):
+    init = core.strip(init)
+    return "UniqueId" in core.pat_str(pat) and init.get("k") == "MethodCall" and init["m"] == "get" and "properties" in core.place_root(init["recv"])[1]
+
+
+def insert_fns(prog, meth, field):
+    """functions of the owning module that directly call `<..>.{field}.{meth}(..)`"""
+    out = []
+    for path, fn in sorted(prog.fns.items()):
+        if fn.crate != "rbx_dom_weak" or fn.body is None or fn.dk == "Closure" or "::test" in path or not path.startswith(DOM):
+            continue
+        if any(n.get("k") == "MethodCall" and n["m"] == meth and core.place_root(n["recv"])[1][-1:] == [field] for n in core.walk_fn(fn, into_closures=False)):
+            out.append(fn)
+    return out
+
+
 def rule_coll(c, prog):
     R = "C12.coll"
-    c.rule(R, "inner_insert: UniqueId present & already recorded => generate, record the new id, overwrite the property; present & new => record it; absent => nothing.  inner_remove frees exactly the id the instance holds")
-    fn = prog.fn(DOM + "WeakDom::inner_insert")
+    c.rule(R, "the function that inserts into the instance map: UniqueId present & already recorded => generate (one UniqueId::now), record the new id, overwrite the property; present & new => record it; absent => nothing.  The function that removes from the map frees exactly the id the leaving instance holds")
+    fns = insert_fns(prog, "insert", "instances")
+    if not fns:
+        raise core.AnchorMissing("no function of rbx_dom_weak::dom inserts into `instances`")
+    for fn in fns:
+        name = U.short_api(fn.path)
+        new_lids, own_lids = set(), set()
+        for st in core.walk_lets(fn.body):
+            if "init" in st and any(x.get("k") == "Call" and (core.callee(x) or "").endswith("UniqueId::now") for x in core.walk(st["init"])):
+                new_lids.update(pat_binding_lids(st["pat"]))
+        for n in core.walk_fn(fn):
+            if n.get("k") == "LetExpr" and is_has_test(n["pat"], n["init"]):
+                own_lids.update(pat_binding_lids(n["pat"]))
+            if n.get("k") == "Match" and n.get("src") in ("Normal", "Postfix"):
+                for arm in n["arms"]:
+                    if is_has_test(arm["pat"], n["e"]):
+                        own_lids.update(pat_binding_lids(arm["pat"]))
+        for _ in range(3):
+            for st in core.walk_lets(fn.body):
+                if "init" in st and not (set(pat_binding_lids(st["pat"])) & new_lids):
+                    if any(x.get("k") == "Path" and x.get("lid") in own_lids for x in core.walk(st["init"])):
+                        own_lids.update(pat_binding_lids(st["pat"]))
+        own_lids -= new_lids
 
-    def role(n):
-        n0 = core.strip(n)
-        if n0.get("k") == "LetExpr":
-            init = core.strip(n0["init"])
-            if "UniqueId" in core.pat_str(n0["pat"]) and init.get("k") == "MethodCall" and init["m"] == "get" and "properties" in core.place_root(init["recv"])[1]:
-                return "HAS"
-        if n0.get("k") == "MethodCall" and n0["m"] == "contains" and core.place_root(n0["recv"])[1][-1:] == ["unique_ids"]:
-            return "DUP"
-        return "?" + core.fingerprint(n0, 4)
+        def which(a):
+            lids = {x.get("lid") for x in core.walk(a) if x.get("k") == "Path" and x.get("res") == "local"}
+            if lids & new_lids:
+                return "new"
+            if lids & own_lids:
+                return "own"
+            return "?" + core.fingerprint(a, 3)
 
-    def eff(n):
-        n0 = core.strip(n)
-        if n0.get("k") == "MethodCall":
-            root = core.place_root(n0["recv"])
-            if n0["m"] == "insert" and root[1][-1:] == ["unique_ids"]:
-                a = core.strip(n0["args"][0])
-                return "record(" + ("new" if a.get("name", "").startswith("new") or a.get("k") == "Path" and a.get("name") != "unique_id" else "own") + ")"
-            if n0["m"] == "insert" and "properties" in root[1]:
-                lits = [x["lit"].get("v") for x in core.walk(n0["args"][0]) if x.get("k") == "Lit"]
-                key = lits[0] if len(lits) == 1 else core.fingerprint(n0["args"][0], 3)
-                return f"props[{key}] := new"
-            if n0["m"] == "insert" and root[1][-1:] == ["instances"]:
-                return "instances.insert"
-            if n0["m"] in ("unwrap", "expect"):
-                inner = core.strip(n0["recv"])
-                if inner.get("k") == "Call" and (core.callee(inner) or "").endswith("UniqueId::now"):
-                    return "generate"
-                return None
-        if n0.get("k") == "Call" and (core.callee(n0) or "").endswith("UniqueId::now"):
-            return "generate"
-        return None
+        def role(n):
+            n0 = core.strip(n)
+            if n0.get("k") == "LetExpr":
+                if is_has_test(n0["pat"], n0["init"]):
+                    return "HAS"
+                n0 = core.strip(n0["init"])
+            if n0.get("k") == "MethodCall" and core.place_root(n0["recv"])[1][-1:] == ["unique_ids"]:
+                if n0["m"] == "contains" and which(n0["args"][0]) == "own":
+                    return "DUP"
+                if n0["m"] == "insert" and which(n0["args"][0]) == "own":
+                    return "NEWID"     # insert-as-test: true = was absent and is now recorded
+            return "?" + core.fingerprint(n0, 4)
 
-    tb = decision.Tabler(namer=role, effect_namer=lambda n: eff(n) or "·")
-    rows = decision.table(tb.paths(fn.body))
-    got = {}
-    for k, v in rows.items():
-        # the order of independent effects on one path is not part of the rule (the fresh id is bound by a let,
-        # so `generate` necessarily precedes its two uses): compare effect multisets
-        effs = sorted({tuple(sorted(e for e in ef if e != "·")) for ef, ex in v})
-        got[frozenset(k)] = effs
-    want = {
-        frozenset({("HAS", True), ("DUP", True)}): [tuple(sorted(("instances.insert", "generate", "record(new)", "props[UniqueId] := new")))],
-        frozenset({("HAS", True), ("DUP", False)}): [tuple(sorted(("instances.insert", "record(own)")))],
-        frozenset({("HAS", False)}): [("instances.insert",)],
-    }
-    c.sample({"rule": R, "inner_insert_table": {" & ".join(sorted(("" if v else "!") + a for a, v in k)): [list(e) for e in v] for k, v in got.items()}})
-    if got == want:
-        c.ok(R, "inner_insert:table", 3)
-    else:
-        c.violation(R, "inner_insert|table", f"inner_insert's collision handling differs from the required table; got {[(sorted(k), v) for k, v in got.items()]}", fn.sp, instance="inner_insert:table")
-    # `generate` must be evaluated on the DUP path before record(new): the let binding holds UniqueId::now()
-    gen = [n for n in core.walk_fn(fn) if n.get("k") == "Call" and (core.callee(n) or "").endswith("UniqueId::now")]
-    if len(gen) == 1:
-        c.ok(R, "inner_insert:fresh-id-from-now")
-    else:
-        c.violation(R, "inner_insert|gen", "inner_insert does not obtain the replacement id from exactly one UniqueId::now() call", fn.sp, instance="inner_insert:fresh-id-from-now")
-    # inner_remove
-    rm = prog.fn(DOM + "WeakDom::inner_remove")
-    ok = False
-    for n in core.walk_fn(rm):
-        if n.get("k") == "If" and core.strip(n["c"]).get("k") == "LetExpr":
-            le = core.strip(n["c"])
-            init = core.strip(le["init"])
-            if "UniqueId" in core.pat_str(le["pat"]) and init.get("m") == "get" and core.place_root(init["recv"])[0] == "instance":
-                bind = [p for p in core.pat_exprs(le["pat"])]
-                for x in core.walk(n["t"]):
-                    if x.get("k") == "MethodCall" and x["m"] == "remove" and core.place_root(x["recv"])[1][-1:] == ["unique_ids"]:
-                        ok = True
-    if ok:
-        c.ok(R, "inner_remove:frees-own-id")
-    else:
-        c.violation(R, "inner_remove|free", "inner_remove does not remove the leaving instance's own UniqueId from unique_ids (ids of destroyed / transferred instances never become available again)", rm.sp, instance="inner_remove:frees-own-id")
+        def eff(n):
+            n0 = core.strip(n)
+            if n0.get("k") == "MethodCall":
+                root = core.place_root(n0["recv"])
+                if n0["m"] == "insert" and root[1][-1:] == ["unique_ids"]:
+                    return "record(" + which(n0["args"][0]) + ")"
+                if n0["m"] == "insert" and "properties" in root[1]:
+                    lits = [x["lit"].get("v") for x in core.walk(n0["args"][0]) if x.get("k") == "Lit"]
+                    key = lits[0] if len(lits) == 1 else core.fingerprint(n0["args"][0], 3)
+                    return f"props[{key}] := {which(n0['args'][1])}"
+                if n0["m"] == "insert" and root[1][-1:] == ["instances"]:
+                    return "instances.insert"
+                if n0["m"] in ("unwrap", "expect"):
+                    inner = core.strip(n0["recv"])
+                    if inner.get("k") == "Call" and (core.callee(inner) or "").endswith("UniqueId::now"):
+                        return "generate"
+                    return None
+            if n0.get("k") == "Call" and (core.callee(n0) or "").endswith("UniqueId::now"):
+                return "generate"
+            return None
+
+        tb = decision.Tabler(namer=role, effect_namer=lambda n: eff(n) or "·")
+        got = {}
+        for pth in tb.paths(fn.body):
+            cs = set(pth.conds)
+            if any((a, not v) in cs for a, v in cs):
+                continue
+            effs = [e for e in pth.effects if e != "·" and not e.startswith("return")]     # the function returns ()
+            # `if unique_ids.insert(own)`: the test and the recording are one operation
+            if ("NEWID", True) in cs:
+                cs.discard(("NEWID", True)); cs.add(("DUP", False)); effs.append("record(own)")
+            if ("NEWID", False) in cs:
+                cs.discard(("NEWID", False)); cs.add(("DUP", True))
+            if any((a, not v) in cs for a, v in cs):
+                continue
+            # the order of independent effects on one path is not part of the rule (the fresh id is bound by a let,
+            # so `generate` necessarily precedes its two uses): compare effect multisets
+            got.setdefault(frozenset(cs), set()).add(tuple(sorted(effs)))
+        got = {k: sorted(v) for k, v in got.items()}
+        want = {
+            frozenset({("HAS", True), ("DUP", True)}): [tuple(sorted(("instances.insert", "generate", "record(new)", "props[UniqueId] := new")))],
+            frozenset({("HAS", True), ("DUP", False)}): [tuple(sorted(("instances.insert", "record(own)")))],
+            frozenset({("HAS", False)}): [("instances.insert",)],
+        }
+        c.sample({"rule": R, "function": fn.path, "insert_table": {" & ".join(sorted(("" if v else "!") + a for a, v in k)): [list(e) for e in v] for k, v in got.items()}})
+        if got == want:
+            c.ok(R, "inner_insert:table", 3)
+        else:
+            c.violation(R, "inner_insert|table", f"{name}: the collision handling differs from the required table; got {[(sorted(k), v) for k, v in got.items()]}", fn.sp, instance="inner_insert:table")
+        gen = [n for n in core.walk_fn(fn) if n.get("k") == "Call" and (core.callee(n) or "").endswith("UniqueId::now")]
+        if len(gen) == 1:
+            c.ok(R, "inner_insert:fresh-id-from-now")
+        else:
+            c.violation(R, "inner_insert|gen", f"{name} does not obtain the replacement id from exactly one UniqueId::now() call", fn.sp, instance="inner_insert:fresh-id-from-now")
+    # removal
+    rfns = insert_fns(prog, "remove", "instances")
+    if not rfns:
+        raise core.AnchorMissing("no function of rbx_dom_weak::dom removes from `instances`")
+    for rm in rfns:
+        ok = False
+        for n in core.walk_fn(rm):
+            cands = []
+            if n.get("k") == "If" and core.strip(n["c"]).get("k") == "LetExpr":
+                le = core.strip(n["c"])
+                cands.append((le["pat"], le["init"], n["t"]))
+            if n.get("k") == "Match" and n.get("src") in ("Normal", "Postfix"):
+                for arm in n["arms"]:
+                    cands.append((arm["pat"], n["e"], arm["body"]))
+            for pat, init, body in cands:
+                if is_has_test(pat, init):
+                    lids = set(pat_binding_lids(pat))
+                    for x in core.walk(body):
+                        if x.get("k") == "MethodCall" and x["m"] == "remove" and core.place_root(x["recv"])[1][-1:] == ["unique_ids"]:
+                            if any(y.get("k") == "Path" and y.get("lid") in lids for y in core.walk(x["args"][0])):
+                                ok = True
+        if ok:
+            c.ok(R, "inner_remove:frees-own-id")
+        else:
+            c.violation(R, "inner_remove|free", f"{U.short_api(rm.path)} does not remove the leaving instance's own UniqueId from unique_ids (ids of destroyed / transferred instances never become available again)", rm.sp, instance="inner_remove:frees-own-id")
 
 
 def rule_gen(c, prog):
